@@ -1,5 +1,5 @@
 """Driver for the model-checking harness: overlay generation, build, worker pool, evidence."""
-import argparse, fcntl, fnmatch, glob, hashlib, json, os, queue, re, shutil, subprocess, sys, threading, time
+import argparse, signal, fcntl, fnmatch, glob, hashlib, json, os, queue, re, shutil, subprocess, sys, threading, time
 
 VERIF = os.path.dirname(os.path.dirname(os.path.abspath(__file__)))
 REPO = os.environ.get("VERIF_REPO", "/repo")
@@ -183,6 +183,10 @@ def scenario_info(worker, prop, tier):
     return json.loads(p.stdout) or []
 
 
+# seconds a worker may stay silent beyond the end of its case's time slice before it is dumped and killed
+WORKER_HANG_GRACE = int(os.environ.get("VERIF_HANG_GRACE", "600"))
+
+
 class Pool:
     """Deals cases of one scenario to worker processes; one JSON result per case."""
 
@@ -222,14 +226,33 @@ class Pool:
             now = time.time()
             waves = self.q.qsize() // self.nproc + 1
             slice_end = now + max(self.min_slice, 3.0 * (self.deadline - now) / waves)
+            case_end = min(max(slice_end, now + 5), max(self.deadline, now + 5))
+            hung = {"v": False}
+
+            def _watchdog(p=proc, h=hung):
+                # the worker checks its deadline between executions; one that is stuck inside an execution
+                # (e.g. a goroutine of the code under test blocked on a mutex forever) never answers
+                h["v"] = True
+                try:
+                    p.send_signal(signal.SIGQUIT)  # goroutine dump into the worker's stderr log
+                    time.sleep(2)
+                    p.kill()
+                except OSError:
+                    pass
+            wd = threading.Timer(max(case_end - now, 0) + WORKER_HANG_GRACE, _watchdog)
+            wd.daemon = True
+            wd.start()
             try:
-                proc.stdin.write("%d %d\n" % (c, int(min(max(slice_end, now + 5), max(self.deadline, now + 5)))))
+                proc.stdin.write("%d %d\n" % (c, int(case_end)))
                 proc.stdin.flush()
                 line = proc.stdout.readline()
             except (BrokenPipeError, OSError):
                 line = ""
+            wd.cancel()
             if not line:
                 rc = proc.wait()
+                if hung["v"]:
+                    rc = "hung"
                 errf.flush()
                 tail = ""
                 try:
@@ -467,6 +490,9 @@ def run_built(args, seed, bins, missing_hooks, ovjson, pcfg, t0):
                 else:
                     violations.append((key, r.get("bound_target", 0), v))
         for c in pool.crashes:
+            if c["rc"] == "hung":
+                tool_errors.append("%s: worker did not answer for %d s beyond the time slice of case %d and was killed (goroutine dump in its stderr log): %s" % (key, WORKER_HANG_GRACE, c["case"], c["stderr"][-1200:]))
+                continue
             if inf.get("CrashSig"):
                 site = crash_site(c["stderr"])
                 v = {"case": c["case"], "signature": inf["CrashSig"] + ":" + site, "count": 1, "choices": [], "labels": [],
